@@ -473,3 +473,35 @@ def _codec(chk):
         isinstance(c, ast.Call) and (dotted(c.func) or "").split(".")[-1] == "literal_eval" for c in walk_no_nested(f.node))]
     chk.require(bool(dec), "utils/io.py: no literal_eval decoder found (anchor vanished)")
     chk.ok("SERIAL.codec.fixture", "xsa/fixtures/c13_codec_bad.py", None, construct="positive fixture fires", nontrivial=False)
+    # the codec is APPLIED on both levels (node attributes and variable attributes) in both directions: every
+    # encoder / decoder walks `<x>.attrs.items()` and writes the converted value back under the same key
+    from .common import class_closure
+    for fname, conv in (("_sanitize_attrs_nc", ("str", "_sanitize", "repr", "json.dumps")), ("_desanitize_attrs_nc", ("_desanitize", "literal_eval", "json.loads"))):
+        f = mod.functions.get(fname)
+        chk.require(f is not None, f"utils/io.py: {fname} vanished")
+        fns = [f] + [g for g in mod.functions.values() if g is not f and any(isinstance(c, ast.Call) and isinstance(c.func, ast.Name) and c.func.id == g.name for c in walk_no_nested(f.node))]
+        levels = set()
+        for g in fns:
+            gf = FuncFacts.of(g)
+            for st in walk_no_nested(g.node):
+                if not (isinstance(st, ast.Assign) and isinstance(st.targets[0], ast.Subscript) and isinstance(st.targets[0].value, ast.Attribute) and st.targets[0].value.attr == "attrs"):
+                    continue
+                v = st.value
+                if not (isinstance(v, ast.Call) and (dotted(v.func) or "").split(".")[-1] in [c.split(".")[-1] for c in conv]):
+                    continue
+                # which attrs: of the node itself or of a variable of the node (node[v].attrs)
+                recv = st.targets[0].value.value
+                levels.add("variable" if isinstance(recv, ast.Subscript) else "node")
+                # written back under the key that was read
+                key = st.targets[0].slice
+                kp = gf.paths(key, spine_only=True)
+                ok_key = any(p.has_op("iter") or p.atom.kind in ("loopvar", "name", "param") for p in kp)
+                chk.check(ok_key, "SERIAL.codec.applied.key", g, st, why="the converted attribute is not written back under the key it was read from")
+        # a helper shared by both levels is called once per level
+        if len(fns) > 1 and levels:
+            calls = [c for c in walk_no_nested(f.node) if isinstance(c, ast.Call) and isinstance(c.func, ast.Name) and c.func.id in {g.name for g in fns[1:]}]
+            argkinds = {"variable" if any(isinstance(x, ast.Subscript) for a in c.args for x in ast.walk(a)) else "node" for c in calls}
+            levels = argkinds if len(argkinds) == 2 else levels
+        chk.check(levels == {"node", "variable"}, "SERIAL.codec.applied", f, f.node, construct=f"{fname} converts node-level and variable-level attributes",
+                  why=f"{fname} converts only the {sorted(levels)} attributes: the other level is written / read back unconverted, so a loaded model carries "
+                      "'True' / '[...]' strings where the saved one had values")
